@@ -382,10 +382,12 @@ def callback_space(tier, prefix):
     thorough = tier == "thorough"
     out = []
     for kind in ("U", "S"):
-        for cap, w, ex in itertools.product(["none", 2], [0, 1], [dict(), dict(ttl=2, tti=2)]):
+        for cap, w, ex in itertools.product(["none", 2], [0, 1], [dict(), dict(ttl=2, tti=2), dict(tti=2)]):
             if kind == "U" and w == 0 and cap == "none" and ex:
                 continue
-            kw = dict(dict(kind=kind, cap=cap, w=w, alpha="callbacks", keys=3, D=7 if thorough else 5, Q=2, A=1 if ex else 0), **ex)
+            if ex == dict(tti=2) and (kind == "U" or w == 1):
+                continue
+            kw = dict(dict(kind=kind, cap=cap, w=w, alpha="callbacks", keys=3 if not ex else 2, D=7 if thorough else (5 if not ex else 6), Q=2, A=2 if ex else 0), **ex)
             if kind == "S":
                 for rg in regimes():
                     k2 = dict(kw, **rg)
@@ -415,7 +417,7 @@ def jobs_for(prop, tier):
     j = _jobs_for(prop, tier)
     if prop in ("C03", "C05", "C06"):
         j = j + longruns_expiry(prop)
-    if prop in ("C01", "C03", "C04", "C08", "C10", "C11"):
+    if prop in ("C01", "C03", "C04", "C06", "C08", "C10", "C11"):
         j = j + callback_space(tier, prop.lower())
     if prop in ("C03", "C04", "C10", "C11", "C08"):
         j = j + from_full(prop, tier)
